@@ -1,11 +1,13 @@
 SPECIFICATION Spec
 CONSTANTS
   EscMode = "markupsafe"
-  LinkStyle = "fixed"
+  LinkStyle = "page"
   MaxTok = 3
   Part = "both"
   ListStyle = "versioned"
   Chains = TRUE
+  Configs = {"default"}
+  SampleConfigs = {}
 INVARIANT TextRefinesP
 INVARIANT LinksRefineP
 INVARIANT LexShape
